@@ -53,6 +53,10 @@ def run(ctx, pt):
     from crysp import wb
     from crysp.des import DES
     key, ch, tier = pt
+    # tables of two neighbouring keys (one effective key bit / one parity bit away) are generated first in the same
+    # process: the program under test must not inherit anything from them
+    build(ctx, bytes([key[0] ^ 0x80]) + key[1:])
+    build(ctx, key[:7] + bytes([key[7] ^ 0x01]))
     KT, M1, M2, M3 = build(ctx, key)
     if ch == 0:
         ok = (len(KT) == 16 and all(len(kt) == 12 for kt in KT) and
@@ -91,7 +95,7 @@ def selftest():
 
 def subchecks():
     return [Sub('programs', pts, run, engine='P', exhaustive=False, chunk=1,
-                bound='one generated table network per key: 64 single-bit keys (incl. the 8 parity bits), zero, all-ones, 4 weak + 12 semi-weak keys, patterns, 8 parity-only variants (quick: 37 keys); each run on the 64 single-bit blocks, zero, all-ones and 4 patterns (quick: 22 blocks); structure of every table; M1/M2/M3 identical across keys and calls')]
+                bound='one generated table network per key: 64 single-bit keys (incl. the 8 parity bits), zero, all-ones, 4 weak + 12 semi-weak keys, patterns, 8 parity-only variants (quick: 37 keys); each run on the 64 single-bit blocks, zero, all-ones and 4 patterns (quick: 22 blocks); structure of every table; M1/M2/M3 identical across keys and calls; each program is generated right after the programs of two neighbouring keys (one key bit / one parity bit away)')]
 
 
 ASSUMPTIONS = ['reference DES (mc/refs/blockciphers.py) bound to OpenSSL through /verif/kats/blockciphers.json',
